@@ -139,8 +139,64 @@ pub fn run(prop: Prop, tier: Tier, seed: u64) -> i32 {
     if prop == Prop::C06 {
         run.set("exhaustive_families", json!(["king square x enemy attacker (5 kinds) x attacker square x (no blocker | blocker of 4 kinds on every between-square or 3 off-ray squares), both colours", "all ordered pairs of king squares"]));
     }
+    if prop == Prop::C01 {
+        cli_perft_part(&mut run, &starts);
+    }
     run.floor_distinct = 50;
     run.finish()
+}
+
+/// End-to-end through the real (guard-off, LTO, mimalloc) binary: `walleye --fen=<fen> -T -d D`
+/// prints the sum of the move-list sizes of all nodes at depths 0..D-1; it must equal the oracle's
+/// perft(1) + ... + perft(D). Counts can cancel where sets differ, so this only supplements the
+/// set comparison - its value is that it observes the shipped build, not the harness build.
+fn cli_perft_part(run: &mut Run, starts: &[Pos]) {
+    let bin = match crate::bb::build_plain() {
+        Ok(b) => b,
+        Err(e) => {
+            run.acc.inconclusive.push(e);
+            return;
+        }
+    };
+    let n = run.tier.pick(64usize, 600);
+    let seed = run.seed;
+    let mut rng = Rng::stream(seed, 0xC11F);
+    let mut ps: Vec<Pos> = starts.to_vec();
+    while ps.len() < n {
+        ps.push(workload::synth_position(&mut rng));
+    }
+    ps.truncate(n);
+    let res = par::par_map(ps.len(), |i| {
+        let mut acc = Acc::new();
+        let p = &ps[i];
+        let pieces = p.sq.iter().filter(|x| x.is_some()).count();
+        let d = if pieces <= 8 { 4 } else { 3 };
+        let want: u64 = (1..=d).map(|k| perft(p, k)).sum();
+        let fen = p.to_fen6(0, 1);
+        acc.evaluations += 1;
+        match crate::bb::run_cli(&bin, &[&format!("--fen={}", fen), "-T", "-d", &d.to_string()], 120_000) {
+            Ok(o) if !o.timed_out => {
+                let got = o.stdout.split("evaluated ").nth(1).and_then(|r| r.split(' ').next()).and_then(|x| x.parse::<u64>().ok());
+                acc.count("cli_perft_runs", 1);
+                if i == 0 {
+                    acc.sample(json!({"cli": format!("walleye --fen='{}' -T -d {}", fen, d), "nodes": got, "oracle": want}));
+                }
+                if got != Some(want) {
+                    acc.violation(
+                        format!("C01|cli-perft|{}", p.to_fen()),
+                        format!("real binary: `walleye --fen='{}' -T -d {}` reports {:?} generated moves, the rules give {} (stdout {:?}, stderr {:?})", fen, d, got, want, truncate(o.stdout.trim(), 120), truncate(o.stderr.trim(), 200)),
+                        json!({"kind": "cli_perft", "property": "C01", "fen": fen, "depth": d}),
+                    );
+                }
+            }
+            Ok(_) => acc.inconclusive.push(format!("cli perft timed out on {}", fen)),
+            Err(e) => acc.inconclusive.push(format!("cli perft could not run: {}", e)),
+        }
+        acc
+    });
+    for a in res {
+        run.acc.merge(a, &[]);
+    }
 }
 
 pub fn run_job(job: &Job, prop: Prop, seed: u64, starts: &[Pos], h: &ZobristHasher, acc: &mut Acc) {
